@@ -42,10 +42,11 @@ const (
 
 func TestMain(m *testing.M) {
 	evid.Main(m, "C04", "exploration",
-		"case = (position, shape, value, rendering): position in {string literal (WHERE =/<>, CONTAINS/STARTS WITH/ENDS WITH, =~, RETURN, list element, IN list, quantifier, inline property map, type()/labels() comparison), property key (lookup, map key), kind name (node label, relationship type, n:Label predicate), variable name, result alias, supplied parameter value (string, []string, []any, nested list, map value, map key)}; shape = one of the query templates of that position (single MATCH, WHERE, WITH pipeline, OPTIONAL MATCH, variable length, shortestPath / allShortestPaths whose filters are materialised into harness SQL text); value = concatenation of up to 6 fragments from a table of lexically significant pieces (quotes, doubled quotes, backslashes, `--`, `/*`, `*/`, `;`, `$$`, `$x$`, backticks, control characters, CR/LF, U+2028/2029/0085, U+FFFD, E'/U&'/N' look-alikes, `\\'`, `@pi0`, non-BMP runes, injection idioms) and arbitrary runes, optionally padded up to 64 KiB; rendering = Cypher quote character and escaping style (minimal: raw newlines, or every EscapedChar) for literals, backticked (` doubled) or bare for names. Non-trivial = the value contains at least one of ' \" \\ ; -- /* */ $ ` or a control / non-BMP rune AND both variants translated; distinct by (position, shape, rendering, set of character classes of the value).",
+		"case = (position, shape, value, rendering): position in {string literal (WHERE =/<>/<, CONTAINS/STARTS WITH/ENDS WITH on a property and on a function result, =~, RETURN, function argument incl. date/datetime/duration, list element, IN list, quantifier, pattern predicate, inline property map, SET / CREATE / DELETE, type()/labels() comparison), property key (lookup, map key, SET/REMOVE/CREATE), kind name (node label, relationship type, n:Label predicate, SET/REMOVE label, CREATE), variable name, result alias, supplied parameter value (string, []string, []any, nested list, map value, map key)}; shape = one of the query templates of that position (single MATCH, WHERE, WITH pipeline, OPTIONAL MATCH, variable length, shortestPath / allShortestPaths whose filters are materialised into harness SQL text); value = concatenation of up to 6 fragments from a table of lexically significant pieces (quotes, doubled quotes, backslashes, `--`, `/*`, `*/`, `;`, `$$`, `$x$`, backticks, control characters, CR/LF, U+2028/2029/0085, U+FFFD, E'/U&'/N' look-alikes, `\\'`, `@pi0`, non-BMP runes, injection idioms) and arbitrary runes, optionally padded up to 64 KiB; rendering = Cypher quote character and escaping style (minimal: raw newlines, or every EscapedChar) for literals, backticked (` doubled) or bare for names. Non-trivial = the value contains at least one of ' \" \\ ; -- /* */ $ ` or a control / non-BMP rune AND both variants translated; distinct by (position, shape, rendering, set of character classes of the value).",
 		"the denoted value of a rendered literal / backticked name is computed by the generator from Cypher.g4 (StringLiteral, EscapedChar, EscapedSymbolicName) and cross-checked by an independent decoder",
 		"PostgreSQL's token structure is judged by verif/sqltok (scan.l rules, standard_conforming_strings=on, UTF-8 server encoding); `@name` is the pgx named argument and the real pgx NamedArgs rewriter is run on the emitted text to confirm it sees the same placeholders",
-		"LIKE patterns: the decoded literal is read with PostgreSQL's LIKE rules (backslash escapes the next character) and must be the benign pattern with the literal run replaced by the value; only the token structure and the value read back are judged, not the choice of operator",
+		"LIKE patterns: the decoded literal is read with PostgreSQL's LIKE rules (backslash escapes the next character); it must be well formed, the template's own wildcards must still read as wildcards, and between them the pattern must carry the value either as literal text (escaped) or verbatim; % _ \\ of a verbatim value acting as pattern syntax inside the value's own span is a change of meaning (C01), recorded as a class and not judged here",
+		"a backtick outside any literal is a violation (PostgreSQL has no such operator; it is Cypher's quoting leaking through)",
 		"kind names never reach SQL text (they are mapped to int2 ids); what the check compares is the name the kind mapper is asked to resolve",
 		"queries the parser or translator rejects, and translations that panic, carry no verdict (counted as skipped)")
 }
@@ -321,7 +322,7 @@ type cmpCtx struct {
 	// likeExact: the value reads back as literal text; likeVerbatim: the value was copied into the pattern
 	// unescaped and contains pattern syntax (meaning changes, token structure does not)
 	likeExact, likeVerbatim int
-	identSlot int
+	identSlot               int
 }
 
 func clipStr(s string, n int) string {
@@ -404,6 +405,13 @@ func (cc *cmpCtx) compareSQL(where, hsql, bsql string, depth int) error {
 		return fmt.Errorf("%s: PostgreSQL's lexer rejects the emitted text (%s at byte %d): …%s", where, bad.Value, bad.Pos, clipStr(hsql[lo:], 300))
 	}
 	ht, bt := sqltok.Significant(hall), sqltok.Significant(ball)
+	// PostgreSQL has no operator containing a backtick and DAWGS emits none: a backtick outside a literal is
+	// Cypher's name quoting leaking into the SQL text (it lexes as an operator, so it is not a Bad token)
+	for i, tk := range ht {
+		if tk.Kind == sqltok.Operator && strings.Contains(tk.Text, "`") {
+			return fmt.Errorf("%s: token %d: a backtick reached the SQL text outside any literal (an operator character to PostgreSQL, not a quote): %s", where, i, around(ht, i))
+		}
+	}
 	n := len(ht)
 	if len(bt) < n {
 		n = len(bt)
